@@ -117,7 +117,13 @@ fn check_sequence(ops: &[Op]) -> Result<(), String> {
     let mut model: Vec<Option<RuleKind>> = vec![None; 1440];
     let mut acc: Option<Schedule> = None;
     for (i, op) in ops.iter().enumerate() {
-        let s = build(op, &format!("c{i}"));
+        let tag = match TAG_MODE.with(|m| m.get()) {
+            0 => format!("c{i}"),
+            1 => "x".to_string(),
+            2 => format!("t{}", i % 2),
+            _ => kind_str(op.1).to_string(),
+        };
+        let s = build(op, &tag);
         check_structure(&s).map_err(|e| format!("from_ranges #{i}: {e}"))?;
         let mut single = vec![None; 1440];
         paint_ranges(&mut single, &op.0, op.1);
@@ -151,12 +157,40 @@ fn ops_json(ops: &[Op]) -> Value {
     json!({"ops": ops.iter().map(|(rs, k)| json!({"kind": kind_str(*k), "ranges": rs.iter().map(|(s, e)| json!([s, e])).collect::<Vec<_>>()})).collect::<Vec<_>>()})
 }
 
+thread_local! {
+    /// how the operands of a sequence are tagged with comments: 0 = one tag per operand, 1 = the same
+    /// tag for all, 2 = two alternating tags, 3 = a tag per kind
+    static TAG_MODE: std::cell::Cell<u8> = const { std::cell::Cell::new(0) };
+    /// which tagging modes run_case goes through (bit mask)
+    static TAG_MODES: std::cell::Cell<u8> = const { std::cell::Cell::new(0b1111) };
+}
+
 fn run_case(rep: &mut Report, ops: &[Op]) {
-    rep.evaluations += 1;
-    match guarded(|| check_sequence(ops)) {
-        Ok(Ok(())) => {}
-        Ok(Err(msg)) => rep.violation("schedule_algebra", msg, ops_json(ops), None),
-        Err(p) => rep.violation("panic", format!("panic: {p}"), ops_json(ops), None),
+    // (merging decisions look at comments as well as kinds: every sequence under each tagging)
+    for mode in 0..4u8 {
+        if mode > 0 && ops.len() < 2 {
+            break;
+        }
+        if TAG_MODES.with(|m| m.get()) & (1 << mode) == 0 {
+            continue;
+        }
+        TAG_MODE.with(|m| m.set(mode));
+        rep.evaluations += 1;
+        let res = guarded(|| check_sequence(ops));
+        TAG_MODE.with(|m| m.set(0));
+        let mut case = ops_json(ops);
+        case["tag_mode"] = json!(mode);
+        match res {
+            Ok(Ok(())) => {}
+            Ok(Err(msg)) => {
+                rep.violation("schedule_algebra", format!("{msg} [comment tagging mode {mode}]"), case, None);
+                return;
+            }
+            Err(p) => {
+                rep.violation("panic", format!("panic: {p}"), case, None);
+                return;
+            }
+        }
     }
 }
 
@@ -179,6 +213,9 @@ fn range_sets(pairs: &[(u16, u16)], max: usize) -> Vec<Vec<(u16, u16)>> {
 }
 
 pub fn run(args: &Args, rep: &mut Report) {
+    // the exhaustive grids under two taggings (own tag per operand, one tag for all); ladders and
+    // random sequences under all four
+    TAG_MODES.with(|m| m.set(0b0011));
     let grid: [u16; 5] = [0, 360, 570, 840, 1440];
     let mut pairs = Vec::new();
     for a in grid {
@@ -260,6 +297,7 @@ pub fn run(args: &Args, rep: &mut Report) {
     rep.sample(|| ops_json(&[(vec![(360, 840), (360, 570)], RuleKind::Open)]));
     rep.sample(|| ops_json(&[(vec![(0, 1440)], RuleKind::Open), (vec![(570, 840), (360, 570)], RuleKind::Closed)]));
 
+    TAG_MODES.with(|m| m.set(0b1111));
     // 3b. size ladder: K = 1..64, 96, 128, 200, 360, 720 ranges in one from_ranges call (disjoint,
     //     touching, staggered overlaps in shuffled order) and K successive additions (nested, alternating
     //     kinds; many-range operand then a whole-day operand and the reverse)
@@ -327,6 +365,16 @@ pub fn run(args: &Args, rep: &mut Report) {
                 (rs, *r.pick(&KINDS))
             })
             .collect();
+        // a third of the sequences repeat ranges of earlier operands exactly (same bounds, another kind)
+        let mut ops = ops;
+        if r.chance(33) {
+            for i in 1..ops.len() {
+                if r.chance(40) {
+                    let j = r.below(i as u64) as usize;
+                    ops[i].0 = if r.chance(50) { ops[j].0.clone() } else { ops[j].0.iter().rev().take(1).cloned().collect() };
+                }
+            }
+        }
         rep.count("random_sequences");
         rep.nontrivial(crate::rng::hash64(&format!("{ops:?}")));
         rep.begin(&format!("{ops:?}"));
